@@ -90,19 +90,19 @@ theorem step_refines_partial (it : Iter) (d : Deque) (m : Mem) (op : IOp) (hi : 
     (hD3 : ¬ inD3 it.index d.size op) :
     ((stepI it d m op).1 = (stepC it.cur d.abs op).1 ∧ (stepI it d m op).2.1.cur = (stepC it.cur d.abs op).2.1 ∧
       (stepI it d m op).2.2.1.abs = (stepC it.cur d.abs op).2.2 ∧ (stepI it d m op).2.2.1.Inv ∧
-      memSame (stepI it d m op).2.2.2 m) ∨
+      memSame d.triple (stepI it d m op).2.2.2 m) ∨
     ((∃ x, op = .add x) ∧ (stepI it d m op).1 = ⟨some .errAlloc, none⟩ ∧ (stepI it d m op).2.1 = it ∧
-      (stepI it d m op).2.2.1 = d ∧ memSame (stepI it d m op).2.2.2 m ∧
-      (m.alloc.1 = false ∨ (d.cap = Gen.MAX_POW_TWO ∧ d.size = d.cap))) := by
+      (stepI it d m op).2.2.1 = d ∧ memSame d.triple (stepI it d m op).2.2.2 m ∧
+      ((m.allocT d.triple).1 = false ∨ (d.cap = Gen.MAX_POW_TWO ∧ d.size = d.cap))) := by
   cases op with
   | next =>
     obtain ⟨a1, a2, a3, a4⟩ := iterNext_spec it d m hi
     left; simp only [stepI, stepC, a1, a2]
-    exact ⟨trivial, a3, trivial, hi, by rw [a4]; exact memSame_refl m⟩
+    exact ⟨trivial, a3, trivial, hi, by rw [a4]; exact memSame_refl _ m⟩
   | remove =>
     obtain ⟨a1, a2, a3, a4, a5, a6, _⟩ := iterRemove_spec it d m hi
     left; simp only [stepI, stepC, a1, a2]
-    exact ⟨trivial, a4, a3, a5, by rw [a6]; exact memSame_refl m⟩
+    exact ⟨trivial, a4, a3, a5, by rw [a6]; exact memSame_refl _ m⟩
   | add x =>
     rcases iterAdd_refines_partial it d x m hi hD3 with ⟨a1, a2, a3, a4, a5⟩ | ⟨a1, a2, a3, a4, a5, a6⟩
     · left; simp only [stepI, stepC, a1]; exact ⟨trivial, a3, a2, a4, a5⟩
@@ -111,9 +111,9 @@ theorem step_refines_partial (it : Iter) (d : Deque) (m : Mem) (op : IOp) (hi : 
   | replace x =>
     obtain ⟨a1, a2, a3, a4, a5⟩ := iterReplace_spec it d x m hi
     left; simp only [stepI, stepC, a1, a2]
-    exact ⟨trivial, trivial, a3, a4, by rw [a5]; exact memSame_refl m⟩
+    exact ⟨trivial, trivial, a3, a4, by rw [a5]; exact memSame_refl _ m⟩
   | index =>
-    left; exact ⟨rfl, rfl, rfl, hi, memSame_refl m⟩
+    left; exact ⟨rfl, rfl, rfl, hi, memSame_refl _ m⟩
 
 def runI (it : Iter) (d : Deque) (m : Mem) : List IOp → List IOut × Iter × Deque × Mem
   | [] => ([], it, d, m)
@@ -149,36 +149,231 @@ theorem stepC_length_le (c : DequeSpec.Cur) (l : List Nat) (op : IOp) : (stepC c
     · split <;> simp
   | index => simp [stepC]
 
-/-- **program_refines (partial on D3)**: with an allocator that does not refuse, *any* program of iterator
-calls — any pattern of next / remove / add / replace / index, starting from any cursor over any layout —
-returns exactly what the ideal cursor returns, ends with related cursors and the ideal content: removal,
-replacement and insertion act exactly on the position of the element yielded last, the traversal continues
-over precisely the original elements not yet visited, size and ends stay consistent (`Inv`) -/
-theorem program_refines_partial (ops : List IOp) (it : Iter) (d : Deque) (m : Mem) (hi : d.Inv) (hs : m.sched = [])
+theorem stepI_triple (it : Iter) (d : Deque) (m : Mem) (op : IOp) : (stepI it d m op).2.2.1.triple = d.triple := by
+  cases op with
+  | next => rfl
+  | remove => exact iterRemove_triple it d m
+  | add x => exact iterAdd_triple it d x m
+  | replace x => exact iterReplace_triple it d x m
+  | index => rfl
+
+/-- the model reported `CC_ERR_ALLOC` for this iterator call -/
+def blocked (it : Iter) (d : Deque) (m : Mem) (op : IOp) : Bool := (stepI it d m op).1.st == some .errAlloc
+
+/-- the ideal cursor, told which calls were blocked -/
+def stepCB (c : DequeSpec.Cur) (l : List Nat) (ob : IOp × Bool) : IOut × DequeSpec.Cur × List Nat :=
+  if ob.2 then (⟨some .errAlloc, none⟩, c, l) else stepC c l ob.1
+
+def runCB (c : DequeSpec.Cur) (l : List Nat) : List (IOp × Bool) → List IOut × DequeSpec.Cur × List Nat
+  | [] => ([], c, l)
+  | ob :: obs => let r := stepCB c l ob; let rs := runCB r.2.1 r.2.2 obs; (r.1 :: rs.1, rs.2.1, rs.2.2)
+
+def flags (it : Iter) (d : Deque) (m : Mem) : List IOp → List Bool
+  | [] => []
+  | op :: ops => blocked it d m op :: flags (stepI it d m op).2.1 (stepI it d m op).2.2.1 (stepI it d m op).2.2.2 ops
+
+/-- no *executed* `add` happens at a cursor position in finding D3's range -/
+def d3FreeB (c : DequeSpec.Cur) (l : List Nat) : List (IOp × Bool) → Prop
+  | [] => True
+  | ob :: obs => (ob.2 = false → ¬ inD3 c.pos l.length ob.1) ∧ d3FreeB (stepCB c l ob).2.1 (stepCB c l ob).2.2 obs
+
+theorem stepC_never_errAlloc (c : DequeSpec.Cur) (l : List Nat) (op : IOp) : (stepC c l op).1.st ≠ some .errAlloc := by
+  cases op with
+  | next => simp only [stepC, DequeSpec.curNext]; cases l[c.pos]? <;> simp
+  | remove =>
+    simp only [stepC, DequeSpec.curRemove]
+    split
+    · simp
+    split
+    · simp
+    cases l[c.pos - 1]? <;> simp
+  | add x => simp only [stepC, DequeSpec.curAdd]; split <;> simp
+  | replace x =>
+    simp only [stepC, DequeSpec.curReplace, DequeSpec.replaceAt]
+    split
+    · simp
+    · split <;> simp
+  | index => simp [stepC]
+
+/-- **program_refines, every refusal schedule (partial on D3)**: *any* program of iterator calls — any
+pattern of next / remove / add / replace / index, from any cursor over any layout, under any allocator
+behaviour — returns exactly what the ideal cursor returns when told which `add`s were blocked (a blocked
+`add` reports `CC_ERR_ALLOC`, deque **and cursor** unchanged); cursors stay related, the content is the
+ideal one, invariant and ledger are intact.  Removal, replacement and insertion act exactly on the position
+of the element yielded last and the traversal continues over precisely the original elements not yet
+visited (`cursor_todo_untouched`). -/
+theorem program_refines_sched_partial (ops : List IOp) (it : Iter) (d : Deque) (m : Mem) (hi : d.Inv)
+    (hfree : d3FreeB it.cur d.abs (ops.zip (flags it d m ops))) :
+    (runI it d m ops).1 = (runCB it.cur d.abs (ops.zip (flags it d m ops))).1 ∧
+    (runI it d m ops).2.1.cur = (runCB it.cur d.abs (ops.zip (flags it d m ops))).2.1 ∧
+    (runI it d m ops).2.2.1.abs = (runCB it.cur d.abs (ops.zip (flags it d m ops))).2.2 ∧
+    (runI it d m ops).2.2.1.Inv ∧ memSame d.triple (runI it d m ops).2.2.2 m := by
+  induction ops generalizing it d m with
+  | nil => exact ⟨rfl, rfl, rfl, hi, memSame_refl _ m⟩
+  | cons op ops ih =>
+    simp only [flags, List.zip_cons_cons, d3FreeB] at hfree
+    obtain ⟨hf1, hf2⟩ := hfree
+    have htr := stepI_triple it d m op
+    simp only [runI, flags, List.zip_cons_cons, runCB]
+    cases hb : blocked it d m op
+    · rw [hb] at hf1 hf2
+      simp only [stepCB, Bool.false_eq_true, if_false] at hf2 ⊢
+      rw [abs_length] at hf1
+      rcases step_refines_partial it d m op hi (hf1 rfl) with ⟨s1, s2, s3, s4, s5⟩ | ⟨_, s1, _⟩
+      · rw [← s2, ← s3] at hf2
+        obtain ⟨r1, r2, r3, r4, r5⟩ := ih (stepI it d m op).2.1 (stepI it d m op).2.2.1 (stepI it d m op).2.2.2 s4 hf2
+        rw [s2, s3] at r1 r2 r3
+        rw [htr] at r5
+        exact ⟨by rw [s1, r1], r2, r3, r4, memSame_trans r5 s5⟩
+      · exfalso
+        unfold blocked at hb
+        rw [s1] at hb; simp at hb
+    · rw [hb] at hf2
+      simp only [stepCB, if_true] at hf2 ⊢
+      have hst : (stepI it d m op).1.st = some .errAlloc := by
+        unfold blocked at hb; simpa using hb
+      -- a blocked call is an `add` whose growth failed: everything, the cursor included, unchanged
+      have hin : (stepI it d m op).1 = ⟨some .errAlloc, none⟩ ∧ (stepI it d m op).2.1 = it ∧
+          (stepI it d m op).2.2.1 = d ∧ memSame d.triple (stepI it d m op).2.2.2 m := by
+        cases op with
+        | add x =>
+          obtain ⟨_, a2, a3, _⟩ := iterAdd_safe it d x m hi
+          simp only [stepI, Option.some.injEq] at hst ⊢
+          obtain ⟨b1, b2⟩ := a3 (by rw [hst]; decide)
+          exact ⟨by rw [hst], b2, b1, a2⟩
+        | next =>
+          exfalso
+          have := (iterNext_spec it d m hi).1
+          simp only [stepI, Option.some.injEq] at hst
+          rw [hst] at this
+          exact stepC_never_errAlloc it.cur d.abs .next (by simp only [stepC]; rw [← this])
+        | remove =>
+          exfalso
+          have := (iterRemove_spec it d m hi).1
+          simp only [stepI, Option.some.injEq] at hst
+          rw [hst] at this
+          exact stepC_never_errAlloc it.cur d.abs .remove (by simp only [stepC]; rw [← this])
+        | replace x =>
+          exfalso
+          have := (iterReplace_spec it d x m hi).1
+          simp only [stepI, Option.some.injEq] at hst
+          rw [hst] at this
+          exact stepC_never_errAlloc it.cur d.abs (.replace x) (by simp only [stepC]; rw [← this])
+        | index => simp [stepI] at hst
+      obtain ⟨b1, b2, b3, b4⟩ := hin
+      have hcur : (stepI it d m op).2.1.cur = it.cur := by rw [b2]
+      have habs : (stepI it d m op).2.2.1.abs = d.abs := by rw [b3]
+      rw [← hcur, ← habs] at hf2
+      obtain ⟨r1, r2, r3, r4, r5⟩ := ih (stepI it d m op).2.1 (stepI it d m op).2.2.1 (stepI it d m op).2.2.2
+        (by rw [b3]; exact hi) hf2
+      rw [hcur, habs] at r1 r2 r3
+      rw [htr] at r5
+      exact ⟨by rw [b1, r1], r2, r3, r4, memSame_trans r5 b4⟩
+
+/-- **Corollary: nothing is blocked** with a never-refusing allocator below the capacity limit -/
+theorem program_refines_partial (ops : List IOp) (it : Iter) (d : Deque) (m : Mem) (hi : d.Inv)
+    (hn : neverRefuses d.triple m)
     (hbound : d.size + ops.length ≤ Gen.MAX_POW_TWO) (hfree : d3Free it.cur d.abs ops) :
     (runI it d m ops).1 = (runC it.cur d.abs ops).1 ∧ (runI it d m ops).2.1.cur = (runC it.cur d.abs ops).2.1 ∧
     (runI it d m ops).2.2.1.abs = (runC it.cur d.abs ops).2.2 ∧ (runI it d m ops).2.2.1.Inv ∧
-    memSame (runI it d m ops).2.2.2 m := by
+    memSame d.triple (runI it d m ops).2.2.2 m := by
   induction ops generalizing it d m with
-  | nil => exact ⟨rfl, rfl, rfl, hi, memSame_refl m⟩
+  | nil => exact ⟨rfl, rfl, rfl, hi, memSame_refl _ m⟩
   | cons op ops ih =>
     obtain ⟨hf1, hf2⟩ := hfree
     simp only [List.length_cons] at hbound
     rw [abs_length] at hf1
+    have htr := stepI_triple it d m op
     rcases step_refines_partial it d m op hi hf1 with ⟨s1, s2, s3, s4, s5⟩ | ⟨_, _, _, _, _, s6⟩
     · have hlen := stepC_length_le it.cur d.abs op
       rw [← s3, abs_length, abs_length] at hlen
       rw [← s2, ← s3] at hf2
       obtain ⟨r1, r2, r3, r4, r5⟩ := ih (stepI it d m op).2.1 (stepI it d m op).2.2.1 (stepI it d m op).2.2.2
-        s4 (s5.2.2.2 hs) (by omega) hf2
+        s4 (by rw [htr]; exact memD_neverRefuses s5 hn) (by omega) hf2
       simp only [runI, runC]
       rw [s2, s3] at r1 r2 r3
+      rw [htr] at r5
       exact ⟨by rw [s1, r1], r2, r3, r4, memSame_trans r5 s5⟩
     · exfalso
       rcases s6 with s6 | ⟨s6, s7⟩
-      · have := (alloc_sched_nil m hs).1
+      · have := (allocT_of_neverRefuses d.triple m hn).1
         rw [s6] at this; exact absurd this (by decide)
       · have := hi.2.2.2.2.2; omega
+
+theorem drop_insertIdx_succ (l : List Nat) (i x : Nat) (h : i ≤ l.length) :
+    (l.insertIdx i x).drop (i + 1) = l.drop i := by
+  induction l generalizing i with
+  | nil =>
+    have : i = 0 := by simpa using h
+    subst this; simp
+  | cons a l ih =>
+    cases i with
+    | zero => simp
+    | succ i =>
+      simp only [List.insertIdx_succ_cons, List.drop_succ_cons]
+      exact ih i (by simpa using h)
+
+/-- **the traversal continues over precisely the not-yet-visited original elements**: a successful
+remove / add / replace through the cursor leaves the part of the list behind the cursor (`drop pos`: what
+`next` will still yield) exactly as it was, and `next` yields its head -/
+theorem cursor_todo_untouched (l : List Nat) (c : DequeSpec.Cur) (x : Nat) :
+    ((DequeSpec.curRemove l c).1 = .ok →
+      (DequeSpec.curRemove l c).2.2.1.drop (DequeSpec.curRemove l c).2.2.2.pos = l.drop c.pos) ∧
+    ((DequeSpec.curAdd l c x).1 = .ok →
+      (DequeSpec.curAdd l c x).2.1.drop (DequeSpec.curAdd l c x).2.2.pos = l.drop c.pos) ∧
+    ((DequeSpec.curReplace l c x).1 = .ok → (DequeSpec.curReplace l c x).2.2.drop c.pos = l.drop c.pos) ∧
+    ((DequeSpec.curNext l c).1 = .ok → (DequeSpec.curNext l c).2.1 = (l.drop c.pos).head? ∧
+      l.drop (DequeSpec.curNext l c).2.2.pos = (l.drop c.pos).tail) := by
+  refine ⟨?_, ?_, ?_, ?_⟩
+  · unfold DequeSpec.curRemove
+    split
+    · intro h; simp at h
+    split
+    · intro h; simp at h
+    · rename_i h0
+      cases hg : l[c.pos - 1]? with
+      | none => intro h; simp at h
+      | some v =>
+        intro _
+        simp only
+        have hlt : c.pos - 1 < l.length := by
+          rcases Nat.lt_or_ge (c.pos - 1) l.length with h | h
+          · exact h
+          · rw [List.getElem?_eq_none h] at hg; cases hg
+        rw [Deque.drop_eraseIdx_self l (c.pos - 1) (by omega)]
+        congr 1; omega
+  · unfold DequeSpec.curAdd
+    split
+    · rename_i hle
+      intro _
+      simp only
+      exact drop_insertIdx_succ l c.pos x hle
+    · intro h; simp at h
+  · unfold DequeSpec.curReplace
+    split
+    · intro h; simp at h
+    · rename_i h0
+      unfold DequeSpec.replaceAt
+      split
+      · intro _
+        simp only
+        rw [List.drop_set]
+        rw [if_pos (by omega)]
+      · intro h; simp at h
+  · unfold DequeSpec.curNext
+    cases hg : l[c.pos]? with
+    | none => intro h; simp at h
+    | some v =>
+      intro _
+      simp only
+      have hlt : c.pos < l.length := by
+        rcases Nat.lt_or_ge c.pos l.length with h | h
+        · exact h
+        · rw [List.getElem?_eq_none h] at hg; cases hg
+      rw [List.drop_eq_getElem_cons hlt]
+      rw [List.getElem?_eq_getElem hlt] at hg
+      simp only [List.head?_cons, List.tail_cons]
+      exact ⟨hg.symm, (by first | rfl | trivial)⟩
 
 /-! ## zip iterator: lock-step, stops at the shorter one -/
 
@@ -211,32 +406,57 @@ theorem zip_lockstep (it : Iter) (d1 d2 : Deque) (m : Mem) (h1 : d1.Inv) (h2 : d
     · rw [if_pos ha]
     · rw [if_neg ha, if_pos (by omega)]
 
-/-- zip mutators refine the ideal pair cursor (`zip_iter_add` partial on D3: the cursor position must be
-outside `add_at`'s front-half range for both sizes) -/
+/-- zip mutators refine the ideal pair cursor, keep both invariants and the ledger (`zip_iter_add` partial
+on D3: the cursor position must be outside `add_at`'s front-half range for both sizes; each deque grows on
+its own triple) -/
 theorem zip_mutators_refine_partial (it : Iter) (d1 d2 : Deque) (x y : Nat) (m : Mem) (h1 : d1.Inv) (h2 : d2.Inv) :
     ((zipRemove it d1 d2 m).1 = (DequeSpec.zipRemove d1.abs d2.abs it.cur).1 ∧
       (zipRemove it d1 d2 m).2.1 = (DequeSpec.zipRemove d1.abs d2.abs it.cur).2.1 ∧
       (zipRemove it d1 d2 m).2.2.2.1.abs = (DequeSpec.zipRemove d1.abs d2.abs it.cur).2.2.1 ∧
       (zipRemove it d1 d2 m).2.2.2.2.1.abs = (DequeSpec.zipRemove d1.abs d2.abs it.cur).2.2.2.1 ∧
-      (zipRemove it d1 d2 m).2.2.1.cur = (DequeSpec.zipRemove d1.abs d2.abs it.cur).2.2.2.2) ∧
+      (zipRemove it d1 d2 m).2.2.1.cur = (DequeSpec.zipRemove d1.abs d2.abs it.cur).2.2.2.2 ∧
+      (zipRemove it d1 d2 m).2.2.2.1.Inv ∧ (zipRemove it d1 d2 m).2.2.2.2.1.Inv ∧
+      (zipRemove it d1 d2 m).2.2.2.2.2 = m) ∧
     ((zipReplace it d1 d2 x y m).1 = (DequeSpec.zipReplace d1.abs d2.abs it.cur x y).1 ∧
       (zipReplace it d1 d2 x y m).2.1 = (DequeSpec.zipReplace d1.abs d2.abs it.cur x y).2.1 ∧
       (zipReplace it d1 d2 x y m).2.2.1.abs = (DequeSpec.zipReplace d1.abs d2.abs it.cur x y).2.2.1 ∧
-      (zipReplace it d1 d2 x y m).2.2.2.1.abs = (DequeSpec.zipReplace d1.abs d2.abs it.cur x y).2.2.2) ∧
+      (zipReplace it d1 d2 x y m).2.2.2.1.abs = (DequeSpec.zipReplace d1.abs d2.abs it.cur x y).2.2.2 ∧
+      (zipReplace it d1 d2 x y m).2.2.1.Inv ∧ (zipReplace it d1 d2 x y m).2.2.2.1.Inv ∧
+      (zipReplace it d1 d2 x y m).2.2.2.2 = m) ∧
     (¬ (1 ≤ it.index ∧ it.index + 1 ≤ d1.size / 2) → ¬ (1 ≤ it.index ∧ it.index + 1 ≤ d2.size / 2) →
-      (zipAdd it d1 d2 x y m).1 ≠ .errAlloc →
-      (zipAdd it d1 d2 x y m).1 = (DequeSpec.zipAdd d1.abs d2.abs it.cur x y).1 ∧
-      (zipAdd it d1 d2 x y m).2.2.1.abs = (DequeSpec.zipAdd d1.abs d2.abs it.cur x y).2.1 ∧
-      (zipAdd it d1 d2 x y m).2.2.2.1.abs = (DequeSpec.zipAdd d1.abs d2.abs it.cur x y).2.2.1 ∧
-      (zipAdd it d1 d2 x y m).2.1.cur = (DequeSpec.zipAdd d1.abs d2.abs it.cur x y).2.2.2) := by
-  obtain ⟨r1, r2, r3, r4, r5, _⟩ := zipRemove_spec it d1 d2 m h1 h2
-  obtain ⟨p1, p2, p3, p4, _⟩ := zipReplace_spec it d1 d2 x y m h1 h2
-  refine ⟨⟨r1, r2, r3, r4, r5⟩, ⟨p1, p2, p3, p4⟩, fun hd1 hd2 hne => ?_⟩
-  rcases zipAdd_refines_partial it d1 d2 x y m h1 h2 hd1 hd2 with ⟨a1, a2, a3, a4, _⟩ | ⟨a1, _⟩
-  · exact ⟨a1, a2, a3, a4⟩
-  · exact absurd a1 hne
+      ((zipAdd it d1 d2 x y m).1 = (DequeSpec.zipAdd d1.abs d2.abs it.cur x y).1 ∧
+        (zipAdd it d1 d2 x y m).2.2.1.abs = (DequeSpec.zipAdd d1.abs d2.abs it.cur x y).2.1 ∧
+        (zipAdd it d1 d2 x y m).2.2.2.1.abs = (DequeSpec.zipAdd d1.abs d2.abs it.cur x y).2.2.1 ∧
+        (zipAdd it d1 d2 x y m).2.1.cur = (DequeSpec.zipAdd d1.abs d2.abs it.cur x y).2.2.2 ∨
+       (zipAdd it d1 d2 x y m).1 = .errAlloc ∧ (zipAdd it d1 d2 x y m).2.2.1.abs = d1.abs ∧
+        (zipAdd it d1 d2 x y m).2.2.2.1.abs = d2.abs ∧ (zipAdd it d1 d2 x y m).2.1 = it) ∧
+      (zipAdd it d1 d2 x y m).2.2.1.Inv ∧ (zipAdd it d1 d2 x y m).2.2.2.1.Inv ∧
+      memSame2 d1.triple d2.triple (zipAdd it d1 d2 x y m).2.2.2.2 m) := by
+  refine ⟨zipRemove_spec it d1 d2 m h1 h2, zipReplace_spec it d1 d2 x y m h1 h2, fun hd1 hd2 => ?_⟩
+  rcases zipAdd_refines_partial it d1 d2 x y m h1 h2 hd1 hd2 with ⟨a1, a2, a3, a4, a5, a6, a7⟩ |
+    ⟨a1, a2, a3, a4, a5, a6, a7, _⟩
+  · exact ⟨Or.inl ⟨a1, a2, a3, a4⟩, a5, a6, a7⟩
+  · exact ⟨Or.inr ⟨a1, a2, a3, a4⟩, a5, a6, a7⟩
+
+/-- **zip rejections**: inserting at a position one of the deques no longer has (behind the end of the
+shorter one) is rejected; so is a second removal of the same pair and any removal / replacement before the
+first `next`.  A rejected zip call changes neither deque, nor the cursor, nor the ledger. -/
+theorem zip_rejections (it : Iter) (d1 d2 : Deque) (x y : Nat) (m : Mem) (h1 : d1.Inv) (h2 : d2.Inv) :
+    (¬ (it.index < d1.size ∧ it.index < d2.size) →
+      zipAdd it d1 d2 x y m = (.errOutOfRange, it, d1, d2, m)) ∧
+    (it.lastRemoved = true → zipRemove it d1 d2 m = (.errValueNotFound, none, it, d1, d2, m)) ∧
+    (it.lastRemoved = false → it.index = 0 → zipRemove it d1 d2 m = (.errOutOfRange, none, it, d1, d2, m)) ∧
+    (it.index = 0 → zipReplace it d1 d2 x y m = (.errOutOfRange, none, d1, d2, m)) := by
+  have hb1 := size_lt_two_pow_64 d1 h1
+  refine ⟨fun h => ?_, fun h => ?_, fun h h0 => ?_, fun h0 => ?_⟩
+  · unfold zipAdd; rw [if_pos (by omega)]
+  · unfold zipRemove; simp [h]
+  · have hoor : decIdx it.index ≥ d1.size := by unfold decIdx; rw [if_pos h0]; omega
+    unfold zipRemove; simp only [h, Bool.false_eq_true, if_false]; rw [if_pos (Or.inl hoor)]
+  · have hoor : decIdx it.index ≥ d1.size := by unfold decIdx; rw [if_pos h0]; omega
+    unfold zipReplace; rw [if_pos (Or.inl hoor)]
 
 /-- non-vacuity: a wrapped, exactly full ring is traversed completely -/
-example : (drain (Deque.mk 4 4 3 3 [12, 13, 14, 11]) 4 {} {}).1 = [11, 12, 13, 14] := by decide
+example : (drain (Deque.mk 4 4 3 3 [12, 13, 14, 11] .conf) 4 {} {}).1 = [11, 12, 13, 14] := by decide
 
 end CC.Properties.C07Deque
